@@ -1,2 +1,167 @@
-(** C17 - property theorems *)
-From PV Require Import Model.Base Model.RtJson Gen.RtTables Model.RtNoise Model.RtDev Model.RtBackend.
+(** C17 - devices, registers, layouts, noise models, configs, results round-trip:
+    property theorems.  Proofs are in Proofs/RtJsonP.v, Proofs/RtFacts.v and
+    Proofs/RtWitness.v; models in Model/Rt*.v; tables in Gen/RtTables.v. *)
+From Coq Require Import ZArith List Bool String.
+From Coq Require Import PrimFloat.
+From PV Require Import Model.Base Model.RtJson Gen.RtTables Model.RtNoise Model.RtDev
+     Model.RtBackend Proofs.RtJsonP Proofs.RtFacts Proofs.RtWitness.
+Import ListNotations.
+Open Scope string_scope.
+Open Scope list_scope.
+
+(** elided f x -> the key is absent and everything else is untouched *)
+Theorem C17_elision_lemma : forall strict t opt params e,
+  pop_defaults strict t opt params = Some e ->
+  forall k, get k e = if mem_s k opt && elided t params k then None else get k params.
+Proof. exact get_pop. Qed.
+Print Assumptions C17_elision_lemma.
+
+(** the decoders' field loop + dataclass constructor, for any table, any
+    JSON object and any separately computed parameters *)
+Theorem C17_decode_generic :
+  forall cls t skip obj conv p0 a (dv : string -> pv -> pv),
+  nodup_s (names t) = true ->
+  keys a = names t ->
+  (forall k, In k (keys p0) -> In k skip /\ In k (init_names t)) ->
+  (forall f v, In f t -> get (f_name f) a = Some v ->
+     let k := f_name f in
+     if f_init f then
+       if mem_s k skip then
+         match get k p0 with Some x => Some x | None => f_default f end = Some (dv k v)
+       else
+         match get k obj with
+         | Some x => conv k x = Some (dv k v)
+         | None => f_default f = Some (dv k v)
+         end
+     else f_default f = Some (dv k v)) ->
+  exists ps,
+    field_loop t t skip obj conv = Some ps
+    /\ construct cls t (p0 ++ ps)
+       = Some (PDict (("__class__", PStr cls)
+                      :: map (fun kv => (fst kv, dv (fst kv) (snd kv))) a)).
+Proof. exact decode_generic. Qed.
+Print Assumptions C17_decode_generic.
+
+(** decode (encode x) = Some (normalise x), for every dataclass table with
+    unique field names, every optional-key list and every instance *)
+Theorem C17_dataclass_roundtrip : forall strict cls t opt a e,
+  nodup_s (names t) = true ->
+  keys a = names t ->
+  (forall f, In f t -> f_init f = false -> get (f_name f) a = f_default f) ->
+  pop_defaults strict t opt a = Some e ->
+  exists ps,
+    field_loop t t [] e (fun _ v => Some v) = Some ps
+    /\ construct cls t ps
+       = Some (PDict (("__class__", PStr cls) :: norm_attrs t opt a)).
+Proof. exact dataclass_roundtrip. Qed.
+Print Assumptions C17_dataclass_roundtrip.
+
+(** ... and normalise x equals x in every field (identical, or [==] to it) *)
+Theorem C17_decoded_fields_equal : forall t opt a,
+  NoDup (keys a) ->
+  Forall2 (fun x y => fst x = fst y
+                      /\ (snd y = snd x \/ pyeq (snd x) (snd y) = true))
+          a (norm_attrs t opt a).
+Proof. exact norm_attrs_equal_fields. Qed.
+Print Assumptions C17_decoded_fields_equal.
+
+(** the regenerated tables of Channel/DMM/EOM/Device/VirtualDevice satisfy the
+    premises of the theorems above, the EOM decoder call reaches every field,
+    and the DMM/Rydberg class selection key is always/never emitted *)
+Theorem C17_tables_wellformed : tables_wellformed = true.
+Proof. exact tables_wellformed_ok. Qed.
+Print Assumptions C17_tables_wellformed.
+
+(** schema-validity, key level: required keys are always emitted, emitted
+    keys are declared properties (channels, DMM, EOM, devices, noise) *)
+Theorem C17_schema_keys : schema_keys_ok = true.
+Proof. exact schema_keys_ok_true. Qed.
+Print Assumptions C17_schema_keys.
+
+(** the device decoder silently substitutes the class default for an absent
+    "dmm_objects": harmless for Device (default empty), not for VirtualDevice *)
+Theorem C17_dmm_default_device : dmm_default_is_empty tbl_Device = true.
+Proof. exact dmm_default_device. Qed.
+Print Assumptions C17_dmm_default_device.
+
+Theorem C17_device_roundtrip_refuted :
+  exists d d',
+    class_of d = "VirtualDevice"
+    /\ attr "dmm_objects" d = PList []
+    /\ roundtrip_dev d = Some d'
+    /\ same (Some (attr "dmm_objects" d')) (default_of tbl_VirtualDevice "dmm_objects") = true
+    /\ pyeq (attr "dmm_objects" d) (attr "dmm_objects" d') = false.
+Proof. exact device_roundtrip_refuted. Qed.
+Print Assumptions C17_device_roundtrip_refuted.
+
+(** a noise model's active types are exactly those with a truthy parameter *)
+Theorem C17_noise_types_exact : forall args inst,
+  noise_init args = Some inst ->
+  forall t,
+    In t (strs_of (attr "noise_types" inst))
+    <-> (In t noise_types_sorted
+         /\ exists p, In p (params_of_type t) /\ truthy (narg args p) = true).
+Proof. exact noise_types_exact. Qed.
+Print Assumptions C17_noise_types_exact.
+
+Theorem C17_noise_roundtrip_refuted :
+  exists args n n',
+    noise_init args = Some n
+    /\ roundtrip_noise n = Some n'
+    /\ attr "runs" n = PInt 10 /\ attr "runs" n' = PNone.
+Proof. exact noise_roundtrip_refuted. Qed.
+Print Assumptions C17_noise_roundtrip_refuted.
+
+Theorem C17_simconfig_temperature_refuted :
+  exists args n sc n',
+    noise_init args = Some n /\ sc_from_noise n = Some sc /\ sc_to_noise sc = Some n'
+    /\ strs_of (attr "noise_types" n') = strs_of (attr "noise_types" n)
+    /\ pyeq (attr "temperature" n) (attr "temperature" n') = false.
+Proof. exact simconfig_temperature_refuted. Qed.
+Print Assumptions C17_simconfig_temperature_refuted.
+
+Theorem C17_simconfig_type_lost_refuted :
+  exists args sc n,
+    sc_construct args = Some sc /\ sc_to_noise sc = Some n
+    /\ strs_of (attr "noise" sc) = ["dephasing"]
+    /\ strs_of (attr "noise_types" n) = [].
+Proof. exact simconfig_type_lost_refuted. Qed.
+Print Assumptions C17_simconfig_type_lost_refuted.
+
+Theorem C17_results_complex_refuted :
+  exists r r',
+    dec_results (enc_results r) = Some r'
+    /\ pyeq (attr "results" r) (attr "results" r') = false
+    /\ pyeq (attr "results" r) (convert_complex (attr "results" r')) = true.
+Proof. exact results_complex_refuted. Qed.
+Print Assumptions C17_results_complex_refuted.
+
+Theorem C17_config_schema_unsatisfiable_refuted :
+  exists o, In o schema_observables /\ obs_schema_satisfiable o = false.
+Proof. exact config_schema_unsatisfiable_refuted. Qed.
+Print Assumptions C17_config_schema_unsatisfiable_refuted.
+
+(** no shared state: a constructor that writes only into its own fresh
+    instance never changes what an earlier instance reads ... *)
+Theorem C17_no_shared_state_local : forall h d i a,
+  (i < List.length (h_objs h))%nat ->
+  read_attr (new_local h d) i a = read_attr h i a.
+Proof. exact new_local_frame. Qed.
+Print Assumptions C17_no_shared_state_local.
+
+(** ... StateRepr as written stores _n_qudits on the class: refuted ... *)
+Theorem C17_staterepr_shared_state_refuted :
+  exists h1 h2 eig amps,
+    staterepr_new h1 eig amps = Some h2
+    /\ read_attr h1 0 "_n_qudits" = Some (PInt 2)
+    /\ read_attr h2 0 "_n_qudits" = Some (PInt 3).
+Proof. exact staterepr_shared_state_refuted. Qed.
+Print Assumptions C17_staterepr_shared_state_refuted.
+
+(** ... and with the attribute stored on the instance it holds *)
+Theorem C17_staterepr_fixed_no_sharing : forall h eig amps h' i a,
+  staterepr_new_fixed h eig amps = Some h' ->
+  (i < List.length (h_objs h))%nat ->
+  read_attr h' i a = read_attr h i a.
+Proof. exact staterepr_fixed_no_sharing. Qed.
+Print Assumptions C17_staterepr_fixed_no_sharing.
